@@ -1,5 +1,8 @@
 //! Shutdown lab (C13): Server::serve_with_incoming_shutdown under a scripted environment, in virtual time.
-//! Stimulus: {calls:[{k, c, items}], steps:[{op:"offer",c}|{op:"send",k}|{op:"fire"}|{op:"release",k}|{op:"drop",c}], shim:{rq,wq,pend}}
+//! Stimulus: {calls:[{k, c, items}], steps:[{op:"offer",c}|{op:"send",k}|{op:"fire"}|{op:"release",k}|{op:"drop",c}|{op:"end_incoming"}|{op:"age"}], shim:{rq,wq,pend}}
+//!   age = let max_connection_age (AGE_MS of virtual time, configured on every server of this lab) elapse for every
+//!   connection accepted so far.  The hook events of tonic's feature verif-hooks (accept loop, connection tasks) are
+//!   recorded in line as {"e":"hook","ev":..,"n":..}.
 //!   items = number of stream items the handler yields before completing (0 = unary call); every handler step
 //!   (each item, and completion) waits for one `release` of its call.
 use crate::labs::call::gen::svc::{svc_client::SvcClient, svc_server::{Svc, SvcServer}};
@@ -59,9 +62,12 @@ impl tokio_stream::Stream for Incoming {
     }
 }
 
+const AGE_MS: u64 = 60_000;
 pub fn run(stim: &Value, rec: &Rec) {
     let log = rec.clone();
     let stim = stim.clone();
+    let hook_log = rec.clone();
+    tonic::transport::verif_hooks::set_sink(Some(Box::new(move |ev, n| if !ev.starts_with("rc_") { hook_log.ev(json!({"e":"hook","ev":ev,"n":n})) })));
     block_on_paused(async move {
         let mut items = HashMap::new(); let mut conn_of = HashMap::new();
         for c in stim["calls"].as_array().cloned().unwrap_or_default() {
@@ -75,7 +81,7 @@ pub fn run(stim: &Value, rec: &Rec) {
         let log_s = log.clone();
         let svc = SvcServer::new(h.clone());
         let serve = tokio::spawn(async move {
-            let r = tonic::transport::Server::builder().add_service(svc)
+            let r = tonic::transport::Server::builder().max_connection_age(Duration::from_millis(AGE_MS)).add_service(svc)
                 .serve_with_incoming_shutdown(Incoming { rx, log: log_s.clone() }, async move { if sig_rx.await.is_err() { std::future::pending::<()>().await } }).await;
             log_s.ev(json!({"e":"resolved","ok":r.is_ok()}));
         });
@@ -120,6 +126,7 @@ pub fn run(stim: &Value, rec: &Rec) {
                 }
                 "fire" => { if let Some(t) = sig_tx.take() { let _ = t.send(()); } }
                 "end_incoming" => { tx.take(); }
+                "age" => { tokio::time::sleep(Duration::from_millis(AGE_MS)).await; }
                 "release" => { h.gate(st["k"].as_u64().unwrap() as u8).add_permits(1); }
                 "drop" => {
                     let c = st["c"].as_u64().unwrap();
@@ -140,4 +147,5 @@ pub fn run(stim: &Value, rec: &Rec) {
         log.ev(json!({"e":"final","resolved":serve.is_finished()}));
         serve.abort();
     });
+    tonic::transport::verif_hooks::set_sink(None);
 }
